@@ -13,8 +13,11 @@ func zzH_STRc() {
 	m := newZZMsgs(8)
 	m.out = make(chan []byte, 8)
 	conn := NewConnWithCodec(NewClientCodec(&zzBytesCodec{}, nil, m, 64))
-	if vChoose("directIO", 2) == 1 {
+	switch vChoose("directIO", 2+vParam("str.pipelining", 1)) {
+	case 1:
 		conn.directIO = true
+	case 2:
+		conn.SetPipelining(true)
 	}
 	sent := make([][]byte, N)
 	for i := range sent {
@@ -442,6 +445,56 @@ func zzH_STR2() {
 			}
 		}
 		vAssert(len(done) == 1 && c.Error == nil && vEqBytes(r, zzReplyFor(a)), "unary-call-unaffected-by-streams")
+		vReach("end")
+	})
+}
+
+// zzH_STRe: server side, the end comes right behind the open request: the peer opens a stream, sends
+// at most one message and then closes the stream and/or disconnects without ever pausing, so the
+// handler may be anywhere in its first ReadMessage when the teardown closes its stream (meant for
+// lock granularity: the wake-up must not be lost between the handler's closed-check and its wait).
+// The handler returns and nothing the server started is left.
+func zzH_STRe() {
+	log := &zzLog{}
+	poll := vChoose("poll", 2) == 1
+	directIO := vChoose("directIO", 2) == 1
+	s, svc := zzNewServer(log, false, directIO, false, false)
+	s.poll = poll
+	handlerDone := false
+	svc.streamFn = func(st *ZZStream) {
+		for i := 0; i < 3; i++ {
+			var msg []byte
+			if st.s.ReadMessage(nil, &msg) != nil {
+				break
+			}
+		}
+		handlerDone = true
+	}
+	m := newZZMsgs(8)
+	lis := newZZListener()
+	if poll {
+		lis.poll = []*zzMsgs{m}
+	} else {
+		lis.conns <- &zzConn{m: m}
+	}
+	vGo("listen", func() {
+		s.listen(&zzSocket{lis: lis}, "zz", func(messages socket_Messages) ServerCodec {
+			return NewServerCodec(&zzBytesCodec{}, nil, messages, s.directIO, 64)
+		})
+	})
+	m.deliver(zzRequest(5, zzUpgBytes(zzUpgOpenStream), "S.Watch", nil))
+	if vChoose("one-message", 2) == 1 {
+		m.deliver(zzRequest(5, zzUpgBytes(zzUpgStreaming), "", []byte{0x61}))
+	}
+	if vChoose("close-stream-first", 2) == 1 {
+		m.deliver(zzRequest(5, zzUpgBytes(zzUpgCloseStream), "", nil))
+	}
+	m.fail(io.EOF)
+	vQuiesce()
+	s.Close()
+	vAtEnd(func() {
+		vAssert(handlerDone, "handler-returns-after-stream-or-connection-end")
+		vAssert(vBlocked() == 0, "no-goroutine-left")
 		vReach("end")
 	})
 }
